@@ -1,5 +1,5 @@
-From OAS Require Import Model.Wire.
+From OAS Require Import Model.Wire Model.ParamMerge.
 Require Extraction.
 Require Import ExtrOcamlBasic ExtrOcamlString.
 Extraction Blacklist String List Nat.
-Extraction "Extract/c03_model.ml" pct_decode enc_segment no_delims layout split delimiter.
+Extraction "Extract/c03_model.ml" pct_decode enc_segment no_delims layout split delimiter collect_parameters.
